@@ -7,6 +7,7 @@ let parse_label (s : string) : label =
   match words s with
   | ["start"] -> LStart
   | ["connect"] -> LConnect
+  | ["connectbad"] -> LConnectBad
   | ["send"; c] -> LSend (ni c)
   | ["leave"; c] -> LLeave (ni c)
   | ["stop"] -> LStop
